@@ -163,9 +163,65 @@ def sortedness(F, f, du, cfg, pos_bb, slice_op, depth=0):
     return False, "no dominating sort and not a BTreeMap iteration"
 
 
+TAG_FIELD = {"Spend": "inputs", "Mint": "mint", "Reward": "withdrawals", "Cert": "certificates", "Vote": "voting_procedures", "Propose": "proposal_procedures"}
+
+
+def _soft(F, res, rule, name):
+    """a function the named clauses are about; when a refactor removed it the clause is not decidable by name any more - the
+    role-based rule R-INDEX (which needs no names) still decides the core of the property"""
+    f = F.fns.get(C + name)
+    if f is None:
+        res.add([assumption(rule, "%s%s|anchor" % (C, name), "crates/tx3-cardano/src/compile/mod.rs", "function %s does not exist on this tree: this named clause is skipped (R-INDEX decides the indices by role)" % name)])
+    return f
+
+
+def r_index(F, res):
+    """Every Redeemer value that is built must take its index from the place of its item in the *compiled body's* collection for
+    its tag (Spend: body.inputs, Mint: body.mint, Reward: body.withdrawals) - the ledger numbers every item of that collection,
+    also those that carry no redeemer - and must say so in its tag.  Found by role: any aggregate of pallas' Redeemer."""
+    from .. import e9_attrib as e9
+    n = 0
+    for p in sorted(F.fns):
+        f = F.fns[p]
+        if f["crate"] != "tx3_cardano" or f.get("derived"):
+            continue
+        du = None
+        k = 0
+        for bi, si, s in mir.stmts(f):
+            rv = s["rv"]
+            if not (rv["k"] == "agg" and rv.get("adt", "").endswith("::Redeemer") and "index" in rv.get("fields", [])):
+                continue
+            n += 1
+            k += 1
+            du = du or mir.DefUse(f)
+            owner = f.get("owner") or p
+            key = "%s|redeemer #%d: index counts the body's items of its tag" % (owner, k)
+            tags = set()
+            for o in mir.provenance(f, du, rv["ops"][rv["fields"].index("tag")]):
+                if o.kind == "agg" and o.rv.get("adt", "").endswith("RedeemerTag"):
+                    tags.add(o.rv["variant"])
+            flds = e9.slice_adt_fields(F, f, rv["ops"][rv["fields"].index("index")], "TransactionBody")
+            w = where(f, s["line"])
+            if len(tags) != 1:
+                res.add([finding("R-INDEX", key, w, "the redeemer's tag is not a single constant (%s)" % sorted(tags))])
+                continue
+            tag = next(iter(tags))
+            want = TAG_FIELD.get(tag)
+            if want in flds:
+                res.add([ok("R-INDEX", key, w, "tag %s; the index is computed from compiled_body.%s" % (tag, want))])
+            elif flds:
+                res.add([finding("R-INDEX", key, w, "a redeemer tagged %s takes its index from compiled_body.%s instead of compiled_body.%s" % (tag, "/".join(sorted(flds)), want))])
+            else:
+                res.add([finding("R-INDEX", key, w, "a redeemer tagged %s takes its index from something other than the compiled body's `%s` collection (e.g. a count among the items that have redeemers): the ledger numbers every item of body.%s, so the redeemer points at another item as soon as one without redeemer sorts before it" % (tag, want, want))])
+    res.count("Redeemer constructions", n)
+    res.floor("Redeemer constructions", n, 2)
+
+
 def s_sorted(F, res):
     for name in ("compile_single_spend_redeemer", "mint_redeemer_index", "withdrawal_redeemer_index"):
-        f = F.fn(C + name)
+        f = _soft(F, res, "S-SORTED", name)
+        if f is None:
+            continue
         du = mir.DefUse(f)
         cfg = mir.CFG(f)
         pos = [(bi, t) for bi, t in mir.calls(f) if (t.get("callee") or "").endswith("Iterator::position") or (t.get("resolved") or "").endswith("::position")]
@@ -183,7 +239,9 @@ def s_sorted(F, res):
 
 def s_all(F, res):
     for name, what in (("compile_spend_redeemers", "UTxOs of a script input"), ("compile_single_mint_redeemer", "policies of a mint/burn block")):
-        f = F.fn(C + name)
+        f = _soft(F, res, "S-ALL", name)
+        if f is None:
+            continue
         key = "%s|no truncation" % f["path"]
         trunc = []
         for b in with_closures(F, f):
@@ -200,8 +258,10 @@ def s_all(F, res):
 
 
 def siblings(F, res):
-    m = F.fn(C + "compile_mint_redeemers")
-    b = F.fn(C + "compile_burn_redeemers")
+    m = _soft(F, res, "SIB", "compile_mint_redeemers")
+    b = _soft(F, res, "SIB", "compile_burn_redeemers")
+    if m is None or b is None:
+        return
 
     def sig(f):
         callees = set()
@@ -231,7 +291,7 @@ def siblings(F, res):
 def chain(F, res):
     f = F.fn(C + "compile_redeemers")
     du = mir.DefUse(f)
-    want = ["compile_spend_redeemers", "compile_mint_redeemers", "compile_burn_redeemers", "compile_withdrawal_redeemers"]
+    want = [n for n in ("compile_spend_redeemers", "compile_mint_redeemers", "compile_burn_redeemers", "compile_withdrawal_redeemers") if (C + n) in F.fns]
     # what reaches the map: provenance of the loop source
     used = set()
     for bi, t in mir.calls(f):
@@ -251,7 +311,9 @@ def chain(F, res):
 
 def tags(F, res):
     for name, tag in (("compile_single_spend_redeemer", "Spend"), ("compile_single_mint_redeemer", "Mint"), ("compile_single_withdrawal_redeemer", "Reward")):
-        f = F.fn(C + name)
+        f = _soft(F, res, "TAGS", name)
+        if f is None:
+            continue
         found = set()
         for bi, si, s in mir.stmts(f):
             rv = s["rv"]
@@ -273,7 +335,9 @@ def run(ctx):
     res.rule("SIB", "mint and burn redeemers use the same builder")
     res.rule("CHAIN", "all four redeemer lists reach the witness set")
     res.rule("TAGS", "each builder uses the tag of its purpose")
+    res.rule("R-INDEX", "every Redeemer's index is the place of its item in the compiled body's collection for its tag")
     keys(F, res)
+    r_index(F, res)
     s_sorted(F, res)
     s_all(F, res)
     siblings(F, res)
